@@ -105,7 +105,10 @@ Section WithFacts.
   Definition value_key (site : string) (v : value) : res key :=
     match value_to_key v with
     | Some k => Ok k
-    | None => Raise TypeError site
+    | None =>
+        (* a hashable value that is neither str nor int (None, a float, a bool) IS a key in Python: outside the model's
+           key type -- flagged as such, the correspondence check skips the case; an unhashable one raises TypeError *)
+        if hashable v then Raise UserError "foreign-key" else Raise TypeError site
     end.
 
   (* mapping[new] = mapping[field]; del mapping[field] *)
